@@ -662,20 +662,32 @@ def main(tier: str) -> int:
         off = rng("c13-offset", seed, name).randrange(stride)
         for s in range(shards):
             enum_plans.append({"property": PROP, "hashseed": 0, "kind": "enum", "report_unfinished": False, "ops": [{"op": "enum", "pid": FIX + name, "shard": [s, shards], "stride": stride, "offset": off}]})
+    # cold-process faults: the very first conversion of an interpreter takes first-time-only
+    # paths (abstract-eval binding, lazy imports); one seeded site per fresh interpreter
+    n_cold = int(os.environ.get("VERIF_C13_COLD", "96" if tier == "thorough" else "16"))
+    cold_plans = []
+    rc = rng("c13-cold", seed)
+    for i in range(n_cold):
+        pid = FIX + rc.choice(["flat", "net", "outer", "fn_boundary"])
+        if rc.random() < 0.5:
+            fault = {"k_frac": round(rc.random(), 6), "exc": rc.choice(["SimFault", "SimInterrupt"])}
+        else:
+            fault = {"region": [rc.choice(["ensure_abstract_eval_bound", "plugin_binding", "_resolve", "apply_patches", "_activate_plugin_worlds", "import_all_plugins", "_iter_patch_specs"]), rc.randrange(0, 600)], "exc": rc.choice(["SimFault", "SimInterrupt"])}
+        cold_plans.append({"property": PROP, "hashseed": 0, "kind": "cold", "ops": [{"op": "convert", "pid": pid, "fault": fault, "n_hint": 10300}, {"op": "convert", "pid": pid}, {"op": "eager", "pid": pid}, {"op": "sweep"}]})
     # stage 1: control (expectations + namespace noise)
-    ctl = co.run_plans([control_plan(hist_plans)], timeout=900)[0]
+    ctl = co.run_plans([control_plan(hist_plans + cold_plans)], timeout=900)[0]
     if not ctl or ctl.get("status") != "ok":
         print(f"HARNESS-ERROR property=C13 control history failed: {str(ctl)[:1500]}")
         return 2
     eager_exp = dict(ctl.get("eager", {}))
     noise = list(eager_exp.pop("__noise__", []))
     known_pats = [k["pattern"] for k in co.load_known() if k.get("property") == PROP and k.get("status", "known") == "known" and k.get("pattern")]
-    for p in hist_plans + enum_plans:
+    for p in hist_plans + enum_plans + cold_plans:
         p["known"] = known_pats
         p["ignore"] = noise
         used = {f"{o['pid']}|{b}" for o in p["ops"] if o["op"] == "eager" for b in (0, 1)}
         p["expect_eager"] = {k: v for k, v in eager_exp.items() if k in used}
-    plans = enum_plans + hist_plans
+    plans = enum_plans + cold_plans + hist_plans
     results = co.run_plans(plans, timeout=max(900.0, budget), deadline=t0 + budget)
     stats: Counter = Counter()
     samples: list = []
@@ -709,6 +721,7 @@ def main(tier: str) -> int:
             "samples": samples[:6] or [{"note": "none"}],
             "exhaustive": False,
             "enumeration": {"programs": enum_names, "sites_total_over_shards": stats.get("enum_sites_total", 0), "faulted_conversions": stats.get("enum_faulted_conversions", 0), "exception_classes": ["SimFault", "SimInterrupt"], "site_stride_per_program": strides, "complete": n_unfinished == 0 and all(r is not None for r in results)},
+            "cold_process_faulted_first_conversions": n_cold,
             "histories": {"count": n_hist, "ops_each": n_ops, "distinct_history_signatures": len(hsigs)},
             "faults_fired_by_kind": {k: v for k, v in stats.items() if k.startswith("fault_fired_") or k.startswith("fault_named_")},
             "faults_fired_by_function": dict(sorted(fault_in.items(), key=lambda kv: -kv[1])[:25]),
